@@ -296,8 +296,43 @@ static void c12_run(rng& g, int shp, int variant, int world, bool builtin, doubl
     ev("RunEnd").emit();
 }
 
+// two integrations at the same time on disjoint parts of the world (as after MPI_Comm_split), with different targets: each group takes its
+// own decisions.  The events of each group are collected and written as one run after the other.
+template <typename K, typename T>
+static void c12_groups(rng& g)
+{
+    typedef typename K::chk C;
+    struct grp { int size; double target; std::vector<std::size_t> plan; std::vector<std::string> events; };
+    std::vector<grp> gs;
+    gs.push_back(grp{2, 0.04, std::vector<std::size_t>(5, 200), std::vector<std::string>()});                    // reached at the second callback
+    gs.push_back(grp{2 + (int) g.below(2), 0.02, std::vector<std::size_t>(5, 200), std::vector<std::string>()}); // not reached within five iterations
+    if (g.below(2)) std::swap(gs[0], gs[1]);
+    C start = K::fresh(0);
+    std::string file = scratch + "/c12g.chk";
+    vt_mpi_run_groups(std::vector<int>{gs[0].size, gs[1].size}, 4242 + g.below(1000), [&](MPI_Comm comm, int gi, int rank) {
+        vt::sink::capture() = &gs[(std::size_t) gi].events;
+        clog_.on = true; clog_.rank = rank;
+        iter_no = 0;
+        T target = T(gs[(std::size_t) gi].target);
+        C r = K::mpi_run(comm, s_ordinary, 0, start, gs[(std::size_t) gi].plan,
+            observed_mpi_builtin<T, C>{hep::mpi_callback<C>(hep::callback_mode::silent, file, target), target});
+        clog_.on = false;
+        ev("Returned").i("rank", rank).i("n", (long long) r.results().size()).emit();
+        vt::sink::capture() = nullptr;
+    }, false);
+    for (auto const& gr : gs)
+    {
+        ev("Run").i("run", run_id++).s("kind", K::name()).s("T", type_name<T>::get()).s("shape", "ordinary").a("plan", gr.plan).i("n0", 0)
+            .i("world", gr.size).i("builtin", 1).i("targetPos", 1).i("mode", 0).i("group", 1).emit();
+        for (auto const& e : gr.events) out().write(e);
+        ev("RunEnd").emit();
+    }
+}
+
 template <typename T> static void c12_family(rng& g, bool thorough)
 {
+    c12_groups<plain_k<T>, T>(g);
+    c12_groups<vegas_k<T>, T>(g);
     // user callbacks returning false at every position, fresh and resumed, serial and MPI
     for (int stop = 0; stop <= 6; ++stop)
     {
